@@ -39,6 +39,7 @@ def mkChecker (d : D) : Checker String Nat String String where
   parseErrs := fun c => match lookupN d.defs c with
     | some (n, _) => (List.range n).map (fun i => "P." ++ toString c ++ "." ++ toString i)
     | none => []
+  isSyntax := fun e => e.startsWith "P."
   check := fun m c G =>
     let key := callKey d.univ m c G
     match lookupS d.tab key with
@@ -57,13 +58,6 @@ def observe (d : D) (s : St) : String :=
     let es := dedup (getErrors s k)
     k ++ "=" ++ (if (lookup s.sources k).isSome then "+" else "-") ++
       (if es.isEmpty then "-" else ",".intercalate es)))
-
-/-- Boolean mirror of `RenameOk`. -/
-def renameOkB (ck : Checker String Nat String String) : St → List (String × String) → Bool
-  | _, [] => true
-  | s, p :: ps =>
-    ((lookup s.sources p.1).isNone || (lookup s.globalCx p.1).isSome) &&
-      renameOkB ck (renameOne ck (s, []) p).1 ps
 
 def stepLine (d : D) (line : String) : D × String :=
   let ck := mkChecker d
@@ -89,11 +83,8 @@ def stepLine (d : D) (line : String) : D × String :=
     match d.st with
     | none => (d, "no-state")
     | some s =>
-      let rens := parsePairs ":" kvs
-      if renameOkB ck s rens then
-        let s' := rename ck s rens
-        ({ d with st := some s' }, observe d s')
-      else ({ d with st := none }, "panic:unwrap")
+      let s' := rename ck s (parsePairs ":" kvs)
+      ({ d with st := some s' }, observe d s')
   | "rem" :: ms =>
     match d.st with
     | none => (d, "no-state")
